@@ -1,4 +1,5 @@
 import Tickit.Proof.LifeMouse
+import Tickit.Proof.LifeTally
 import Tickit.Proof.LifeTopSw
 /-
   C08 proofs, part 12: the layer of `Model/LifeTop.lean` - the terminal's own bindings and its input entry points, the
@@ -511,13 +512,18 @@ theorem termRefI_ok {gh : Ghost} {top : Top} (F : FInv gh top) (hf : top.st.term
     FInv gh.addTerm (termRefI top) ∧ Rest top (termRefI top) :=
   ⟨⟨termRefS_ok F.inv hf, F.keep.of_wx rfl, F.ids, F.root⟩, by rest_rfl⟩
 
-theorem termUnrefI_ok {gh : Ghost} {top : Top} (F : FInv gh.addTerm top) :
-    ∃ top', termUnrefI top = .ok top' ∧ FInv gh top' ∧ Rest top top' := by
+theorem termUnrefI_ok' {gh : Ghost} {top : Top} (F : FInv gh.addTerm top) :
+    ∃ top', termUnrefI top = .ok top' ∧ FInv gh top' ∧ Rest top top' ∧ top'.st = { top.st with term := top.st.term.dropped } := by
   obtain ⟨hu, inv'⟩ := termUnref_ghost F.inv
   unfold termUnrefI
   simp only [hu, bind_ok, pure_ok]
-  obtain ⟨F', Rs, _⟩ := sync_ok (top := { top with st := { top.st with term := top.st.term.dropped } }) inv' (F.keep.of_wx rfl) F.ids
-  exact ⟨_, rfl, F', Rest.trans (by rest_rfl) Rs⟩
+  obtain ⟨F', Rs, hst⟩ := sync_ok (top := { top with st := { top.st with term := top.st.term.dropped } }) inv' (F.keep.of_wx rfl) F.ids
+  exact ⟨_, rfl, F', Rest.trans (by rest_rfl) Rs, hst⟩
+
+theorem termUnrefI_ok {gh : Ghost} {top : Top} (F : FInv gh.addTerm top) :
+    ∃ top', termUnrefI top = .ok top' ∧ FInv gh top' ∧ Rest top top' := by
+  obtain ⟨t, h, F', R', _⟩ := termUnrefI_ok' F
+  exact ⟨t, h, F', R'⟩
 
 /-- An entry point that holds a reference to the terminal while it works. -/
 theorem withTermRef_ok {gh : Ghost} {top : Top} (F : FInv gh top) (hf : top.st.term.freed = false) {f : Top → Out Top}
@@ -1079,10 +1085,10 @@ theorem instHeld_spec {top : Top} (h : instHeld top = true) : ∃ i, top.inst = 
     exact ⟨i, rfl, h.1, h.2⟩
 
 /-- A change of the instance's record that keeps it alive with a right count. -/
-theorem TopInv.pre_setInst {top : Top} (T : TopInv top) {i : Inst} (hi : top.inst = some i) (hf : i.freed = false) (f : Inst → Inst)
+theorem TopPre.pre_setInst {top : Top} (T : TopPre top) {i : Inst} (hi : top.inst = some i) (hf : i.freed = false) (f : Inst → Inst)
     (hff : (f i).freed = false) (hrc : 1 ≤ (f i).refcount ∧ (f i).refcount = ((f i).appRefs : Int)) : TopPre (setInst top f) := by
   have hinst : (setInst top f).inst = some (f i) := by unfold setInst; rw [hi]; rfl
-  refine ⟨?_, T.sw.pre.of_same ⟨rfl, rfl, rfl, rfl, rfl⟩, ⟨?_, ?_⟩, T.dangling⟩
+  refine ⟨?_, T.sw.of_same ⟨rfl, rfl, rfl, rfl, rfl⟩, ⟨?_, ?_⟩, T.dangling⟩
   · rw [ghost_alive hinst hff, ← ghost_alive hi hf]
     exact T.f.of_fields rfl rfl
   · intro j hj _
@@ -1091,6 +1097,10 @@ theorem TopInv.pre_setInst {top : Top} (T : TopInv top) {i : Inst} (hi : top.ins
   · intro j hj hfj
     rw [hinst] at hj; cases hj
     rw [hff] at hfj; cases hfj
+
+theorem TopInv.pre_setInst {top : Top} (T : TopInv top) {i : Inst} (hi : top.inst = some i) (hf : i.freed = false) (f : Inst → Inst)
+    (hff : (f i).freed = false) (hrc : 1 ≤ (f i).refcount ∧ (f i).refcount = ((f i).appRefs : Int)) : TopPre (setInst top f) :=
+  T.pre.pre_setInst hi hf f hff hrc
 
 theorem iref_ok {tc : TCfg} {top : Top} (T : TopInv top) :
     ∃ top1 r, xstepCore tc top .iref = .ok (top1, r) ∧ TopPre top1 := by
@@ -1190,9 +1200,10 @@ theorem instDestroy_eq (tc : TCfg) (top : Top) : instDestroy tc top =
 
 theorem destroyTail_ok {t0 t1 : Top} {i : Inst} (F1 : FInv Ghost.none.addTerm t1) (R1 : Rest t0 t1) (hsw : SwPre t0)
     (hi : t0.inst = some i) (ha : i.appRefs = 0) (hd : t0.dangling = false) :
-    ∃ top1, destroyTail t1 = .ok top1 ∧ TopPre top1 ∧ (∃ j, top1.inst = some j ∧ j.freed = true) ∧ SwSame t0 top1 := by
+    ∃ top1, destroyTail t1 = .ok top1 ∧ TopPre top1 ∧ (∃ j, top1.inst = some j ∧ j.freed = true) ∧ SwSame t0 top1 ∧
+      EndRel t1.st top1.st := by
   unfold destroyTail
-  obtain ⟨t2, h2, F2, R2⟩ := termUnrefI_ok F1
+  obtain ⟨t2, h2, F2, R2, hst2⟩ := termUnrefI_ok' F1
   simp only [h2, bind_ok, pure_ok]
   have R12 := R1.trans R2
   have hi2 : ∃ i2, t2.inst = some i2 ∧ i2.appRefs = 0 := by
@@ -1207,7 +1218,13 @@ theorem destroyTail_ok {t0 t1 : Top} {i : Inst} (F1 : FInv Ghost.none.addTerm t1
     unfold setInst; show Option.map _ t2.inst = _; rw [hi2]; rfl
   have hS : SwSame t0 (setInst { t2 with inputDead := !t2.st.term.freed } (fun i => { i with freed := true, refcount := 0, laters := [], timers := [] })) :=
     ⟨R12.sw, R12.swFirst, R12.swHandler, R12.xterms, R12.fail⟩
-  refine ⟨_, rfl, ⟨?_, hsw.of_same hS, ⟨?_, ?_⟩, ?_⟩, ⟨_, hinst, rfl⟩, hS⟩
+  have hE : EndRel t1.st t2.st := by
+    rw [hst2]
+    refine EndRel.of_term t1.st _ rfl ?_
+    intro hf
+    have := term_live_of_ghost F1.inv (by simp)
+    rw [this] at hf; cases hf
+  refine ⟨_, rfl, ⟨?_, hsw.of_same hS, ⟨?_, ?_⟩, ?_⟩, ⟨_, hinst, rfl⟩, hS, hE⟩
   · rw [ghost_dead hinst rfl]
     exact F2.of_fields rfl rfl
   · intro j hj hf
@@ -1222,12 +1239,12 @@ theorem destroyTail_ok {t0 t1 : Top} {i : Inst} (F1 : FInv Ghost.none.addTerm t1
 theorem instDestroy_ok {tc : TCfg} (R : Repaired tc.base) (hrf : tc.rootForgetsTickit = true) {top : Top} {i : Inst}
     (F : FInv instGhost top) (hsw : SwPre top) (hi : top.inst = some i) (ha : i.appRefs = 0) (hd : top.dangling = false) :
     ∃ top1, instDestroy tc top = .ok top1 ∧ TopPre top1 ∧ (∃ j, top1.inst = some j ∧ j.freed = true) ∧
-      SwSame top top1 := by
+      SwSame top top1 ∧ EndRel top.st top1.st := by
   rw [instDestroy_eq]
   by_cases hr : rootAlive top.st = true
   · rw [if_pos hr]
     obtain ⟨r, hrl⟩ := rootAlive_live hr
-    obtain ⟨st1, hu, inv1, _, _, _⟩ := unrefW_ghost R (gh' := Ghost.none.addTerm) F.inv hrl rfl rfl
+    obtain ⟨st1, hu, inv1, hsz1, hfr1, hmono1⟩ := unrefW_ghost R (gh' := Ghost.none.addTerm) F.inv hrl rfl rfl
       (fun j hj => by simp [instGhost, hj])
     simp only [hu, bind_ok]
     obtain ⟨F1, R1, _⟩ := sync_ok (top := { top with st := st1, dangling := rootAlive st1 && !tc.rootForgetsTickit }) inv1
@@ -1235,7 +1252,10 @@ theorem instDestroy_ok {tc : TCfg} (R : Repaired tc.base) (hrf : tc.rootForgetsT
     have Rx : Rest top ({ top with st := st1, dangling := rootAlive st1 && !tc.rootForgetsTickit } : Top) :=
       ⟨InstRel.refl _, by show (rootAlive st1 && !tc.rootForgetsTickit) = top.dangling; rw [hrf, hd]; simp,
        rfl, rfl, rfl, rfl, rfl, rfl, rfl, rfl, rfl, rfl, fun _ h => h⟩
-    exact destroyTail_ok F1 (Rx.trans R1) hsw hi ha hd
+    obtain ⟨top1, h1, P1, hj, S1, E1⟩ := destroyTail_ok F1 (Rx.trans R1) hsw hi ha hd
+    refine ⟨top1, h1, P1, hj, S1, EndRel.trans ⟨unrefW_tally hu, ⟨hsz1, hfr1, hmono1⟩⟩ ?_⟩
+    rw [sync_st] at E1
+    exact E1
   · rw [if_neg hr]
     refine destroyTail_ok ⟨F.inv.reghost_win rfl ?_, F.keep, F.ids, F.root⟩ (Rest.refl top) hsw hi ha hd
     intro j w hl
@@ -1244,9 +1264,10 @@ theorem instDestroy_ok {tc : TCfg} (R : Repaired tc.base) (hrf : tc.rootForgetsT
       exact hr (rootAlive_iff.2 ⟨w, hl⟩)
     simp [instGhost, this]
 
-theorem instUnref_ok {tc : TCfg} (R : Repaired tc.base) (hrf : tc.rootForgetsTickit = true) {top : Top} (T : TopInv top)
+theorem instUnref_ok {tc : TCfg} (R : Repaired tc.base) (hrf : tc.rootForgetsTickit = true) {top : Top} (T : TopPre top)
     (hh : instHeld top = true) : ∃ top1, instUnref tc top = .ok top1 ∧ TopPre top1 ∧ SwSame top top1 ∧
-      (∀ i j, top.inst = some i → top1.inst = some j → j.appRefs + 1 = i.appRefs ∧ (i.appRefs = 1 → j.freed = true)) := by
+      (∀ i j, top.inst = some i → top1.inst = some j → j.appRefs + 1 = i.appRefs ∧ (i.appRefs = 1 → j.freed = true)) ∧
+      EndRel top.st top1.st ∧ (∃ j, top1.inst = some j) := by
   obtain ⟨i, hi, hf, hpos⟩ := instHeld_spec hh
   obtain ⟨hr1, hrc⟩ := T.inst.live i hi hf
   unfold instUnref
@@ -1258,9 +1279,9 @@ theorem instUnref_ok {tc : TCfg} (R : Repaired tc.base) (hrf : tc.rootForgetsTic
   · rw [if_pos hz]
     have F : FInv instGhost (setInst top (fun i => { i with appRefs := i.appRefs - 1, refcount := i.refcount - 1 })) := by
       rw [← ghost_alive hi hf]; exact T.f.of_fields rfl rfl
-    obtain ⟨top1, h1, P1, ⟨j, hj, hjf⟩, S1⟩ := instDestroy_ok R hrf F (T.sw.pre.of_same ⟨rfl, rfl, rfl, rfl, rfl⟩) hinst
+    obtain ⟨top1, h1, P1, ⟨j, hj, hjf⟩, S1, E1⟩ := instDestroy_ok R hrf F (T.sw.of_same ⟨rfl, rfl, rfl, rfl, rfl⟩) hinst
       (by show i.appRefs - 1 = 0; omega) T.dangling
-    refine ⟨top1, h1, P1, ⟨S1.sw, S1.first, S1.handler, S1.xterms, S1.fail⟩, ?_⟩
+    refine ⟨top1, h1, P1, ⟨S1.sw, S1.first, S1.handler, S1.xterms, S1.fail⟩, ?_, E1, ⟨j, hj⟩⟩
     intro i' j' hi' hj'
     cases hi'
     rw [hj] at hj'; cases hj'
@@ -1268,7 +1289,7 @@ theorem instUnref_ok {tc : TCfg} (R : Repaired tc.base) (hrf : tc.rootForgetsTic
     exact ⟨by omega, fun _ => hjf⟩
   · rw [if_neg hz]
     refine ⟨_, rfl, T.pre_setInst hi hf _ hf ⟨by show 1 ≤ i.refcount - 1; omega,
-      by show i.refcount - 1 = ((i.appRefs - 1 : Nat) : Int); omega⟩, ⟨rfl, rfl, rfl, rfl, rfl⟩, ?_⟩
+      by show i.refcount - 1 = ((i.appRefs - 1 : Nat) : Int); omega⟩, ⟨rfl, rfl, rfl, rfl, rfl⟩, ?_, EndRel.refl _, ⟨_, hinst⟩⟩
     intro i' j' hi' hj'
     cases hi'
     rw [hinst] at hj'; cases hj'
@@ -1280,7 +1301,7 @@ theorem iunref_ok {tc : TCfg} (R : Repaired tc.base) (hrf : tc.rootForgetsTickit
   rw [e]
   by_cases hh : instHeld top = true
   · rw [if_neg (by rw [hh]; simp)]
-    obtain ⟨top1, h1, P1, _⟩ := instUnref_ok R hrf T hh
+    obtain ⟨top1, h1, P1, _⟩ := instUnref_ok R hrf T.pre hh
     exact ⟨top1, "ok", okT_ok h1, P1⟩
   · rw [if_pos (not_true_of hh)]
     exact ⟨top, "skip", rfl, T.pre⟩
